@@ -356,7 +356,7 @@ private:
     /** Invokes the bison generated parser to parse the given string. */
     int parse(const xmlChar*, xta_part_t syntax);
     /** Parse optional declaration. */
-    bool declaration();
+    bool declaration(xta_part_t part = S_DECLARATION);
     /** Parse optional label. */
     bool label(bool required = false, const std::string& kind = "");
     /** A label element as read: its kind, its character data and where it stands. */
@@ -598,11 +598,11 @@ bool XMLReader::readContent(std::string& text)
     return found;
 }
 
-bool XMLReader::declaration()
+bool XMLReader::declaration(xta_part_t part)
 {
     if (begin(tag_t::DECLARATION)) {
         if (std::string text; readContent(text))
-            parse((const xmlChar*)text.c_str(), S_DECLARATION);
+            parse((const xmlChar*)text.c_str(), part);
         return true;
     }
     return false;
@@ -1143,7 +1143,7 @@ bool XMLReader::templ()
 
             /* Parse declarations, locations, branchpoints,
              * the init tag and the transitions of the template. */
-            declaration();
+            declaration(S_LOCAL_DECL);  // what a template may declare: functions, variables and types
             while (location())
                 ;
             while (branchpoint())
@@ -1187,7 +1187,7 @@ bool XMLReader::lscTempl()
 
             /* Parse declarations, locations, instances, prechart
              * messages, conditions and updates */
-            declaration();
+            declaration(S_LOCAL_DECL);  // what a template may declare: functions, variables and types
             while (yloccoord())
                 ;
             while (instance())
